@@ -1,9 +1,10 @@
 #!/bin/bash
 # usage: ./seedtest.sh <seed dir under /tmp/seed or /verif/seeded> <Cxx> [tier]   -- apply the seeded change to /repo, run the check, undo
 set -u
+REPO=${VERIF_REPO:-/repo}; V=$(cd "$(dirname "$0")" && pwd)
 D=$1; P=$2; T=${3:-quick}
 if [ -d "$D/.git" ] || [ -f "$D/.git" ]; then git -C "$D" diff -- src > /tmp/seed/cur.patch; else cp "$D/patch.diff" /tmp/seed/cur.patch; fi
-git -C /repo status --short | grep -q . && { echo "repo dirty"; exit 2; }
-git -C /repo apply /tmp/seed/cur.patch || { echo "patch does not apply"; exit 2; }
-/verif/check "$P" "$T" 2>&1 | grep -E "batch|OK|VIOLATION|clause|HARNESS|KNOWN" | cut -c1-400 | head -${HEAD:-12}
-git -C /repo checkout -- . 
+git -C "$REPO" status --short | grep -q . && { echo "repo dirty"; exit 2; }
+git -C "$REPO" apply /tmp/seed/cur.patch || { echo "patch does not apply"; exit 2; }
+"$V/check" "$P" "$T" 2>&1 | grep -E "batch|OK|VIOLATION|clause|HARNESS|KNOWN" | cut -c1-400 | head -${HEAD:-12}
+git -C "$REPO" checkout -- . 
